@@ -30,6 +30,7 @@ def run(prog, chk):
     chk.decided += ["for a designspace the kerning groups are collected from every source's font, not from one master (a class pair of a master whose group the others lack keeps its value) (R10.7)"]
     chk.decided += ["feature-writer objects keep no per-font state outside self.context (no memoising decorators, no attributes written outside __init__): a writer reused for the next designspace must not keep the previous one's sources (R10.11 = R08.7)"]
     chk.decided += ["per-run accumulators of the interpolatable filters are per master: a name-keyed memo shared by all masters would give every master the first master's component offsets (R10.12 = R09.10 = R15.7)"]
+    chk.decided += ["no function writes to a module-level container or rebinds a module global: nothing of one designspace (memoised user-space locations, models) can reach the compile of another one (R10.13 = R08.13)"]
     chk.not_decided += ["gvar / HVAR / GPOS variation data computed by fontTools.varLib and feaLib", "numeric reproduction of the masters"]
     chk.guard(r101, prog, chk)
     chk.guard(r102, prog, chk)
@@ -47,6 +48,7 @@ def run(prog, chk):
     chk.guard(r087, prog, chk, "R10.11")
     from .c09 import check_master_isolation
     chk.guard(check_master_isolation, prog, chk, "R10.12")
+    chk.guard(check_no_module_state, prog, chk, "R10.13")
 
 
 def _source_loops(prog, f: FuncInfo) -> List[ast.For]:
@@ -476,7 +478,56 @@ def r1010(prog, chk):
     chk.minimum("R10.10", 1)
 
 
+# ----------------------------------------------------------------------------- R10.13 (= R08.13)
+_CONTAINER_CALLS = {"dict", "list", "set", "defaultdict", "OrderedDict", "Counter", "WeakKeyDictionary", "WeakValueDictionary", "ChainMap", "deque"}
+_GLOBAL_MUTATORS = {"add", "append", "extend", "update", "setdefault", "pop", "popitem", "clear", "remove", "discard", "insert", "__setitem__", "appendleft"}
+
+
+def check_no_module_state(prog, chk, rule):
+    """No function of the package writes to a container defined at module level (or rebinds a module global): such a
+    container lives as long as the process, so what one compile leaves there - e.g. user-space locations memoised under
+    a key that does not identify the designspace - is handed to the next compile."""
+    ix = prog.ix
+    n_containers = 0
+    for mi in ix.modules.values():
+        glob = {}
+        for st in mi.tree.body:
+            if isinstance(st, (ast.Assign, ast.AnnAssign)) and st.value is not None:
+                v = st.value
+                if isinstance(v, (ast.Dict, ast.List, ast.Set, ast.DictComp, ast.ListComp, ast.SetComp)) or (isinstance(v, ast.Call) and A.callee_name(v) in _CONTAINER_CALLS):
+                    for tg in (st.targets if isinstance(st, ast.Assign) else [st.target]):
+                        if isinstance(tg, ast.Name):
+                            glob[tg.id] = st
+        n_containers += len(glob)
+        writes = []
+        for fi in ix.functions.values():
+            if fi.module is not mi or isinstance(fi.node, ast.Lambda):
+                continue
+            declared = {nm for g_ in ast.walk(fi.node) if isinstance(g_, ast.Global) for nm in g_.names}
+            for nm in sorted(declared):
+                writes.append((fi, next(g_ for g_ in ast.walk(fi.node) if isinstance(g_, ast.Global)), nm))
+            local = {x.id for x in ast.walk(fi.node) if isinstance(x, ast.Name) and isinstance(x.ctx, ast.Store)} | set(fi.params())
+            for x in ast.walk(fi.node):
+                tgt = None
+                if isinstance(x, ast.Subscript) and isinstance(x.ctx, (ast.Store, ast.Del)):
+                    tgt = x.value
+                elif isinstance(x, ast.Call) and isinstance(x.func, ast.Attribute) and x.func.attr in _GLOBAL_MUTATORS:
+                    tgt = x.func.value
+                elif isinstance(x, ast.AugAssign):
+                    tgt = x.target
+                if isinstance(tgt, ast.Name) and tgt.id in glob and (tgt.id not in local or tgt.id in declared):
+                    writes.append((fi, x, tgt.id))
+        for fi, x, nm in writes:
+            chk.ob(rule, f"{fi.short}|{nm}|no write to module-level state", False, where(fi, x), detail=T(x, 60),
+                   message=f"{fi.short}: `{T(x, 60)}` writes to the module-level `{nm}`, which outlives the compile: results of one compile (of one designspace / font) are handed to the next one in the same process")
+    chk.ob(rule, "module-level containers of the package are never written from function bodies", True, "Lib/ufo2ft", detail=f"{n_containers} module-level container(s) in {len(ix.modules)} modules examined")
+    need(n_containers >= 10, f"only {n_containers} module-level containers found: the scan lost its footing")
+
+
 MUTANTS = [
+    M("user-space locations memoised in a module-level dict under a key that does not identify the designspace (seeded C10m)", "ufo2ft/util.py", "get_userspace_location",
+      "location_user = designspace.map_backward(location)", "location_user = _USERSPACE.setdefault(tuple(sorted(location.items())), designspace.map_backward(location))", rule="R10.13",
+      also=(("ufo2ft/util.py", "", "<append-module>", "_USERSPACE = {}"),)),
     M("sources whose anchor equals the default's are left out of the variable scalar (seeded C18l)", "ufo2ft/featureWriters/baseFeatureWriter.py", "BaseFeatureWriter._getAnchor",
       "if anchor.name == anchorName:\n    location = get_userspace_location(designspace, source.location)\n    x_value.add_value(location, otRound(anchor.x))\n    y_value.add_value(location, otRound(anchor.y))\n    found = True",
       "if anchor.name == anchorName and (source is designspace.findDefault() or (anchor.x, anchor.y) != (0, 0)):\n    location = get_userspace_location(designspace, source.location)\n    x_value.add_value(location, otRound(anchor.x))\n    y_value.add_value(location, otRound(anchor.y))\n    found = True", rule="R10.2"),
